@@ -73,6 +73,12 @@ Proof. intros o l r a b Hl Hr Hn. destruct l, r; simpl in *; try discriminate; t
 Theorem C18_source_tables : symbolic_tables_agree.
 Proof. exact symbolic_tables. Qed.
 
+(* the printed text matters only through what it parses to: two dimension expressions with the same postfix program
+   (and the same anonymity flag) have the same arithmetic value in every scope.  harness/props/c18.py relies on this when
+   the implementation's text and the model printer's differ in redundant parentheses: it compares what both parse to. *)
+Theorem C18_value_reads_postfix_only : forall d1 d2 sc,
+  d_post d1 = d_post d2 -> d_anon d1 = d_anon d2 -> evaluate d1 sc false = evaluate d2 sc false.
+Proof. intros d1 d2 sc Hp Ha. unfold evaluate. rewrite Hp, Ha. reflexivity. Qed.
 Redirect "C18.assumptions.1" Print Assumptions C18_symbolic.
 Redirect "C18.assumptions.3" Print Assumptions C18_source_tables.
 Redirect "C18.assumptions.4" Print Assumptions C18_constant_axes_refused.
